@@ -46,17 +46,32 @@ def run_fixed(cases, oracle=True):
     return vlib.run_impl('session_impl.py', {'mode': 'run', 'cases': cases, 'oracle': oracle}, timeout=1800)['histories']
 
 
+OPCLASS = {'new': 'create', 'set': 'update', 'setmany': 'update', 'add': 'collection', 'remove': 'collection', 'assign': 'collection', 'del': 'delete',
+           'flush': 'txn', 'commit': 'txn', 'rollback': 'txn', 'newsession': 'txn', 'final': 'txn'}      # everything else: 'read'
+# An operation that RAISES and leaves the cache inconsistent is one root cause (missing / partial undo) with an unbounded family of symptoms
+# (which index entry, which side of which relationship, which exception class): keyed by a coarse symptom class per property.
+RAISED_CLASS = {'c11-index-stale': 'c11-index', 'c11-index-missing': 'c11-index',
+                'c12-ref-not-in-collection': 'c12-both-ends', 'c12-item-without-backref': 'c12-both-ends',
+                'c12-one-to-one-not-mutual': 'c12-both-ends', 'c12-m2m-not-mutual': 'c12-both-ends'}
+DUMP_CHECKS = ('c09-', 'c14-duplicate', 'c14-failed-commit-changed-db')
+
+
 def key_of(h, v):
-    """Finding key: <check>@<op kind>:<ok|err> - which oracle failed, after which kind of operation, and whether that operation
-    raised.  The exception class is deliberately not part of the key (one missing undo shows up with several exception classes);
-    checks at dump points are keyed <check>@<commit|rollback|newsession>, reads that raise AssertionError c10-read-assertion@read:err."""
+    """Finding key, computed from the SHAPE of the first failing op only (never from values, attribute positions or exception classes):
+         <check>@<commit|rollback|failed-commit>           checks at dump points (commit = commit() or leaving the db_session / end of history)
+         <symptom class>@<op class>:raised                  the op raised and left the cache inconsistent (symptom class: RAISED_CLASS, else the check)
+         <check>@<op class>:ok                              the op succeeded
+       op class: create | update | collection | delete | read | txn."""
     i = v['op_index']
     op = h['ops'][i] if i < len(h['ops']) else ['final']
     r = h['results'][i] if i < len(h['results']) else ['ok']
-    if v['check'].startswith('c09-') or v['check'].startswith('c14-duplicate') or v['check'] == 'c14-failed-commit-changed-db':
-        return '%s@%s' % (v['check'], 'newsession' if op[0] == 'final' else op[0])       # dump points: commit / rollback / newsession (= end of history)
-    if v['check'].startswith('c10-read-assertion'): return v['check'] + '@read:err'
-    return '%s@%s:%s' % (v['check'], op[0], 'err' if r[0] == 'err' else 'ok')
+    check = v['check']
+    if check.startswith(DUMP_CHECKS):
+        if r[0] == 'err': return check + '@failed-commit'
+        return '%s@%s' % (check, 'rollback' if op[0] == 'rollback' else 'commit')
+    oc = OPCLASS.get(op[0], 'read')
+    if r[0] == 'err': return '%s@%s:raised' % (RAISED_CLASS.get(check, check), oc)
+    return '%s@%s:ok' % (check, oc)
 
 
 def family_violations(h, prop):
@@ -192,8 +207,20 @@ def search(ctx, deep, prop, n_quick=150, n_deep=6000):
     return Search(evaluations=dist['ops'], failures=failures, nontrivial=len(nontrivial), samples=samples, distribution=dist, exhaustive=False)
 
 
+_replay_cache = {}
+
+
 def replay(ctx, data, prop):
-    hh = run_fixed([{'schema': data['schema'], 'ops': data['ops']}])[0]
+    """Re-run one stored (schema, ops).  The known findings of a property are replayed in ONE interpreter the first time any of them is asked for."""
+    ck = sf.canon([data['schema'], data['ops']])
+    if ck not in _replay_cache:
+        cases = [data] + [k['replay'] for k in vlib.known_for(prop) if k.get('replay') and 'schema' in k['replay']]
+        todo, seen = [], set()
+        for c in cases:
+            k = sf.canon([c['schema'], c['ops']])
+            if k not in seen and k not in _replay_cache: seen.add(k); todo.append((k, c))
+        for (k, c), hh in zip(todo, run_fixed([{'schema': c['schema'], 'ops': c['ops']} for _, c in todo])): _replay_cache[k] = hh
+    hh = _replay_cache[ck]
     for key, v in family_violations(hh, prop):
         if data.get('key') in (None, key):
             return Failure(key, '%s: %s (after op %s)' % (v['check'], v['detail'], json.dumps(v['op'])), data)
